@@ -153,6 +153,15 @@ class C02(Base):
                       "a %s <rm name='a'>gone</rm> %s\n\nb\n" % (long, long),
                       "%s\n<tl to='%s'>\n%s\n</tl>\n%s" % (long, gen.READY_T, long, long)):
                 yield self.mk(d, "<", ">", proto.DEFAULT_CFG, "long-lines")
+        # one tag name configured for both kinds of element (told apart by their attributes only)
+        same = Cfg(tl="rm", rm="rm")
+        al3 = ["<rm to='%s'>" % gen.READY_T, "<rm name='a'>", "<rm name='b'>", "<rm name='a' to='%s'>" % gen.PEND_T, "</rm>", "x", "\n"]
+        for s in gen.g_atoms_exhaustive("<", ">", quick(tier, 4, 5), al3):
+            yield self.mk(s, "<", ">", same, "same-tag-name")
+        for i in range(quick(tier, 300, 6000)):
+            items = gen.g_ast(rng, depth=rng.choice([1, 2, 3]))
+            sp = gen.Spelling("<", ">", tl="t", rm="t")
+            yield self.mk(gen.render(items, sp, final_nl=rng.random() < 0.7), "<", ">", Cfg(tl="t", rm="t"), "same-tag-name")
         # condition attributes that are missing, valueless or empty, under target sets that contain the empty name
         al2 = ["<rm>", "<rm name>", "<rm name=''>", "</rm>", "<tl>", "<tl to>", "</tl>", "<rm name='a'>", "x", "\n"]
         for cfg in (Cfg(targets=("",)), Cfg(targets=("", "a")), Cfg(off="", targets=("",))):
